@@ -82,11 +82,15 @@ namespace rkcommon {
           if (!l->threadShouldBeAlive)
             return;
 
+          // publish insideLoopBody *before* testing shouldBeRunning: stop()
+          // clears shouldBeRunning and then waits for insideLoopBody, so either
+          // we see the cleared flag here or stop() sees us inside the body
+          l->insideLoopBody = true;
           if (l->shouldBeRunning) {
-            l->insideLoopBody = true;
             fcn();
             l->insideLoopBody = false;
           } else {
+            l->insideLoopBody = false;
             std::unique_lock<std::mutex> lock(l->runningMutex);
             l->runningCond.wait(lock, [&] {
               return l->shouldBeRunning.load() ||
